@@ -59,7 +59,7 @@ class Task:
 class Baton:
     """Cooperative hand-off between real threads."""
 
-    HANG_WALL_S = 20.0
+    HANG_WALL_S = 90.0
 
     def __init__(self):
         self.main = Task(self, "driver", None)
